@@ -175,11 +175,12 @@ Inductive pop :=
 | OReset | ORelease
 | OPutGet.          (* PutParser(p) followed, for whoever obtains it, by GetParser() *)
 Definition all_pops := [OParse; OParsePos; OParseCtx; ORecover; ORecoverPos; OApply; OReset; ORelease; OPutGet].
-Definition pop_method (o : pop) : String.string :=
+Definition pop_methods (o : pop) : list String.string :=
   match o with
-  | OParse => "Parse" | OParsePos => "ParseWithPositions" | OParseCtx => "ParseContext"
-  | ORecover => "ParseWithRecovery" | ORecoverPos => "ParseWithRecoveryFromModelTokens"
-  | OApply => "ApplyOptions" | OReset => "Reset" | ORelease => "Release" | OPutGet => "PutParser"
+  | OParse => ["Parse"; "ParseFromModelTokens"] | OParsePos => ["ParseWithPositions"; "ParseFromModelTokensWithPositions"]
+  | OParseCtx => ["ParseContext"; "ParseContextFromModelTokens"]
+  | ORecover => ["ParseWithRecovery"] | ORecoverPos => ["ParseWithRecoveryFromModelTokens"]
+  | OApply => ["ApplyOptions"] | OReset => ["Reset"] | ORelease => ["Release"] | OPutGet => ["PutParser"]
   end%string.
 
 Inductive popt := WithStrict | WithDialect (d : dial).
@@ -292,7 +293,7 @@ Section Parser.
         if i_convfail x then (s, RConvErr) else
         if ctx_done0 (i_ctx x) then (s, RCtxErr) else
         let s1 := load_tokens (i_toks x) (drop_positions (set_ctx (Some (i_ctx x)) s)) in
-        let (r, p) := parse_at (view_of s1) false (fuel_of (i_toks x)) 0 [] in
+        let (r, p) := parse_at (view_of s1) (p_strict s1) (fuel_of (i_toks x)) 0 [] in
         (set_ctx None (set_cursor p s1),                                 (* defer func() { p.ctx = nil }() *)
          RTrees r (match r with PErr _ => loc_at (p_positions s1) p | _ => (0, 0) end))
     | ORecover =>
@@ -329,7 +330,7 @@ Section Parser.
   Definition is_entry (o : pop) : bool :=
     match o with OParse | OParsePos | OParseCtx | ORecover | ORecoverPos => true | _ => false end.
   Definition sets_positions (o : pop) : bool := match o with OParsePos | ORecoverPos => true | _ => false end.
-  Definition strict_aware (o : pop) : bool := match o with OParse | OParsePos => true | _ => false end.
+  Definition strict_aware (o : pop) : bool := match o with OParse | OParsePos | OParseCtx => true | _ => false end.
 
   Definition preads (o : pop) (f : pfield) : bool :=
     match f with
@@ -376,8 +377,8 @@ Definition DEFAULT_DIALECT := 1.      (* "postgresql" *)
 Definition DEFAULT_KEYWORDS := 0.     (* keywords.NewKeywords() *)
 Definition fresh_t : tstate := mkT None (0, 1, 1) (0, 0, 0) [0] 0 DEFAULT_KEYWORDS DEFAULT_DIALECT false [] false.
 
-Inductive tfield := TInput | TPos | TLineStart | TLineStarts | TLine | TKeywords | TDialect | TLogger | TComments | TConfigured.
-Definition all_tfields := [TInput; TPos; TLineStart; TLineStarts; TLine; TKeywords; TDialect; TLogger; TComments; TConfigured].
+Inductive tfield := TInput | TPos | TLineStart | TLineStarts | TLine | TKeywords | TDialect | TLogger | TConfigured | TComments.
+Definition all_tfields := [TInput; TPos; TLineStart; TLineStarts; TLine; TKeywords; TDialect; TLogger; TConfigured; TComments].
 Definition tfield_name (f : tfield) : String.string :=
   match f with
   | TInput => "input" | TPos => "pos" | TLineStart => "lineStart" | TLineStarts => "lineStarts" | TLine => "line"
@@ -399,10 +400,10 @@ Inductive top :=
 | OTReset                     (* Tokenizer.Reset: per-run state only; the holder's dialect stays *)
 | OTPutGet.                   (* PutTokenizer then GetTokenizer *)
 Definition all_tops := [OTokenize; OTokenizeCtx; OSetDialect; OSetLogger; OTReset; OTPutGet].
-Definition top_method (o : top) : String.string :=
+Definition top_methods (o : top) : list String.string :=
   match o with
-  | OTokenize => "Tokenize" | OTokenizeCtx => "TokenizeContext" | OSetDialect => "SetDialect"
-  | OSetLogger => "SetLogger" | OTReset => "Reset" | OTPutGet => "PutTokenizer"
+  | OTokenize => ["Tokenize"] | OTokenizeCtx => ["TokenizeContext"] | OSetDialect => ["SetDialect"]
+  | OSetLogger => ["SetLogger"] | OTReset => ["Reset"] | OTPutGet => ["PutTokenizer"]
   end%string.
 
 Record tin := mkTIn {
@@ -465,6 +466,7 @@ Section Tokenizer.
   Definition treads (o : top) (f : tfield) : bool :=
     match o, f with
     | (OTokenize | OTokenizeCtx), TComments => td_early_return_keeps_comments D
+    | OTPutGet, TConfigured => true     (* PutTokenizer restores the defaults only when the holder changed them *)
     | _, _ => false
     end.
   Definition teff (o : top) (f : tfield) : effect :=
@@ -512,6 +514,81 @@ Section Dirty.
         && dcheck d' r
     end.
 End Dirty.
+Arguments dstep {field op}. Arguments dstart {field op}. Arguments dcheck {field op}.
+
+(* ------------------------------------------------------------------------------------------- *)
+(* Part 5: compatibility of a footprint table with the field-effect table regenerated from the Go source *)
+
+(* per (method, field): incoming value may be read; store class 0 none, 1 balanced (inc + deferred dec), 2 must (assigned on
+   every path), 3 zero-or-keep, 4 may; all stores store the zero value *)
+Definition fxcell := (bool * (nat * bool))%type.
+Definition fxrow := (String.string * list (String.string * fxcell))%type.
+
+Fixpoint assoc {A} (k : String.string) (l : list (String.string * A)) : option A :=
+  match l with
+  | [] => None
+  | (k', v) :: r => if String.eqb k k' then Some v else assoc k r
+  end.
+Fixpoint strs_eqb (a b : list String.string) : bool :=
+  match a, b with
+  | [], [] => true
+  | x :: r, y :: r' => String.eqb x y && strs_eqb r r'
+  | _, _ => false
+  end.
+
+Definition eff_compat (need_zero_consts : bool) (e : effect) (c : fxcell) : bool :=
+  let '(_, (cls, az)) := c in
+  match e with
+  | Keep => (cls =? 0) || (cls =? 1)
+  | Zero => (cls =? 2) && (az || negb need_zero_consts)
+  | KZ => (cls =? 0) || (cls =? 1) || (cls =? 3) || ((cls =? 2) && az)
+  | Det | Any => true
+  end.
+
+Section Compat.
+  Variables field op : Type.
+  Variable T : footprint field op.
+  Variable fname : field -> String.string.
+  Variable methods : op -> list String.string.          (* the Go methods an operation of the model stands for *)
+  Variable guard_r guard_w : op -> field -> bool.       (* hand-justified cells (listed in design/C08.md) *)
+  Variable need_zero_consts : bool.                     (* a new instance is the Go zero value *)
+  Variable gen_fields : list String.string.
+  Variable gen : list fxrow.
+
+  Definition cell_compat (o : op) (m : String.string) (f : field) : bool :=
+    match assoc m gen with
+    | None => false
+    | Some row =>
+        match assoc (fname f) row with
+        | None => false
+        | Some c => implb (fst c) (fp_reads T o f || guard_r o f) &&
+                    (eff_compat need_zero_consts (fp_eff T o f) c || guard_w o f)
+        end
+    end.
+  Definition known_method (m : String.string) : bool :=
+    existsb (fun o => existsb (String.eqb m) (methods o)) (fp_ops T).
+  (* an exported method the model has no operation for must be a getter of well-behaved fields *)
+  Definition getter_ok (row : fxrow) : bool :=
+    forallb (fun f => match assoc (fname f) (snd row) with
+                      | None => false
+                      | Some (r, (cls, _)) => (cls =? 0) && implb r (wb T f)
+                      end) (fp_fields T).
+  Definition fx_compat : bool :=
+    strs_eqb (map fname (fp_fields T)) gen_fields &&
+    forallb (fun o => forallb (fun m => forallb (cell_compat o m) (fp_fields T)) (methods o)) (fp_ops T) &&
+    forallb (fun row => known_method (fst row) || getter_ok row) gen.
+End Compat.
+Arguments fx_compat {field op}.
+
+(* hand-justified cells.  Parser: currentToken is stored only when the token slice is non-empty and is not consulted
+   when it is empty (lemma cur_guarded; probes with empty / nil / EOF-less slices).  Tokenizer: Reset uses only cap() and
+   [:0] of the incoming lineStarts (its elements are never read); PutTokenizer restores keywords / dialect / configured
+   under the configured flag, which every operation that changes them sets (reflect oracle after every Put). *)
+Definition pguard_r (o : pop) (f : pfield) : bool :=
+  match f with FCur => match o with OParse | OParsePos | OParseCtx | ORecover | ORecoverPos => true | _ => false end | _ => false end.
+Definition tguard_r (o : top) (f : tfield) : bool := match f with TLineStarts => true | _ => false end.
+Definition tguard_w (o : top) (f : tfield) : bool :=
+  match o, f with OTPutGet, (TKeywords | TDialect | TConfigured) => true | _, _ => false end.
 
 Fixpoint bad_indices {A} (chk : A -> bool) (i : N) (l : list A) : list N :=
   match l with
